@@ -21,6 +21,7 @@ from vp import core, probe
 from vp import defaults
 from vp import reuse
 from vp import forms as argforms
+from vp import corners
 
 RULE = ('complete enumeration of all programs of length <= 3 (quick) / <= 4 (thorough) over {Plane, Pupil, Image, Tilt, '
         'DispersiveTilt, Grism, Rotate, Flip, bare Plane(ptype=t) for the 5 plane types, propagate_dft, propagate_fft} from each of the start types none/pupil/image, '
@@ -30,7 +31,7 @@ ASSUMPTIONS = ['the documentation tables of the tree under test are the specific
                'propagate_fft refusing tilt-carrying wavefronts (NotImplementedError) is C09\'s rule, not a table entry']
 EXHAUSTIVE = True
 PLAN = {'quick': {'gen': 8}, 'thorough': {'gen': 16, 'tests': 1}}
-REQUIRED_BUCKETS = ['defaults', 'reuse', 'forms', 'sampling:decimal-ratio', 'sampling:decimal-ratio:one-ulp-off', 'propagate:field-less', 'other-process', 'form:shared-plane-object', 'form:scalar+sampling', 'form:other-focal', 'form:no-focal', 'form:reassigned', 'typed-tilt-class', 'start:none+focal', 'form:mismatch', 'copy-step', 'form:scalar', 'form:disjoint', 'start:none', 'start:pupil', 'start:image', 'len:1', 'len:2', 'len:3', 'random-long',
+REQUIRED_BUCKETS = ['defaults', 'corners', 'reuse', 'forms', 'sampling:decimal-ratio', 'sampling:decimal-ratio:one-ulp-off', 'propagate:field-less', 'other-process', 'form:shared-plane-object', 'form:scalar+sampling', 'form:other-focal', 'form:no-focal', 'form:reassigned', 'typed-tilt-class', 'start:none+focal', 'form:mismatch', 'copy-step', 'form:scalar', 'form:disjoint', 'start:none', 'start:pupil', 'start:image', 'len:1', 'len:2', 'len:3', 'random-long',
                     'cell:allowed', 'cell:refused', 'propagate:allowed', 'propagate:refused']
 REQUIRED_ANCHORS = ['anchor:_can_mul_ptype', 'anchor:_mul_result_ptype', 'anchor:_propagate_ptype', 'anchor:Image.multiply',
                     'anchor:PType.__eq__']
@@ -332,6 +333,7 @@ def workload(ctx, lentil):
     defaults.run(ctx, lentil, 'C08', 'trace=automaton')
     reuse.run(ctx, lentil, 'C08', 'trace=automaton')
     argforms.run(ctx, lentil, 'C08', 'trace=automaton')
+    corners.run(ctx, lentil, 'C08', 'trace=automaton')
     rng = ctx.rng
     maxlen = 3 if ctx.tier == 'quick' else 4
     traces = []
